@@ -19,6 +19,7 @@ EOT
 elif grep -qE "clarabel::verif|feature = \"verif\"|verif_" /verif/seeded/$id/demo.rs; then
   feat="--features verif"
 fi
+if grep -q 'feature = "faer-sparse"' /verif/seeded/$id/demo.rs; then feat="--features faer-sparse"; fi
 cp /verif/seeded/$id/demo.rs tests/demo_$low.rs
 export CARGO_NET_OFFLINE=true
 res() { echo "\"$1\": $2"; }
